@@ -248,7 +248,8 @@ def gen_guarded(rng):
         if k < 0.4:
             sa = ["eq", "pyscript.g0", rng.choice(["on", "off"])]
         elif k < 0.7 and kind == "state":
-            sa = ["and", ["ne", "pyscript.e0", "off"], rng.choice([["old_eq", "pyscript.e0", "on"], ["ne", "pyscript.e0", "zz"], ["attr_eq", "pyscript.e0", "a1", 1]])]
+            # the last alternative is a bare attribute: 0 / 1, falsy / truthy without being False / True
+            sa = ["and", ["ne", "pyscript.e0", "off"], rng.choice([["old_eq", "pyscript.e0", "on"], ["ne", "pyscript.e0", "zz"], ["attr_eq", "pyscript.e0", "a1", 1], ["attr_val", "pyscript.e0", "a1"]])]
         else:
             sa = ["or", ["eq", "pyscript.g0", "on"], ["eq", "pyscript.e0", "home"]]
     order = rng.random() < 0.5  # True: @time_active listed above @state_active
